@@ -136,9 +136,12 @@ Section Conn.
          | _ => None
          end.
 
-  (* vertex_to_cell: list(set(...)) - returned here in increasing order, compared as a set *)
+  (* vertex_to_cell (_compute_connectivity): `for iC,C in enumerate(cells): for V in C: adjV2C[V].add(iC)` then
+     list(set): here the set in first-insertion order, compared as a set *)
   Definition V2C (v : nat) : list nat :=
-    filter (fun iC => memb v (nth iC cells [])) (seq 0 (length cells)).
+    nodup Nat.eq_dec
+      (flat_map (fun iC => flat_map (fun V => if V =? v then [iC] else []) (nth iC cells []))
+                (seq 0 (length cells))).
 
   (* face_to_edges (surface.py): edge ids of the cyclic sides *)
   Definition f2e_row (F : list nat) : list (option nat) :=
@@ -352,9 +355,24 @@ Section Boundary.
     end.
   Definition bc_faces (vs bf : list nat) : res (list (list nat)) := map_res (bc_face vs) bf.
 
-  (* extract_boundary_of_volume: faces in stored order, renumbered *)
+  (* extract_boundary_of_volume (after the repair 832f457): the stored vertices renumbered, then - for a triangle
+     that lies in a cell - oriented outwards by the same determinant test *)
   Definition ex_face (vs : list nat) (iF : nat) : res (list nat) :=
-    match map_opt (m2b vs) (nth iF faces []) with Some l => Ok l | None => Exn end.
+    match map_opt (m2b vs) (ex_face_order (nth iF faces [])) with
+    | None => Exn                                         (* map_m2b[v] : KeyError *)
+    | Some face =>
+        let cs := F2C f2c iF in
+        if ex_orient_guard (length face) (length cs)
+        then match cs, nth iF faces [], face with
+             | iC :: _, [a; b; c], [x0; x1; x2] =>
+                 match others (nth iC cells []) [a; b; c] with
+                 | [] => Exn
+                 | d :: _ => Ok (if ex_flip_test (pos a) (pos b) (pos c) (pos d) then ex_flip x0 x1 x2 else face)
+                 end
+             | _, _, _ => Exn
+             end
+        else Ok face
+    end.
   Definition ex_faces (vs bf : list nat) : res (list (list nat)) := map_res (ex_face vs) bf.
 End Boundary.
 
@@ -371,6 +389,10 @@ Definition bc_edge_map (edges bedges : list (list nat)) (vs be : list nat) : res
                                 end
                     | _ => Exn
                     end) be.
+
+(* a dict filled inside `for i, x in enumerate(l)` with the (key, value) pair `entry i x` (Gen.v) *)
+Definition dict_enum (entry : nat -> nat -> nat * nat) (l : list nat) : list (nat * nat) :=
+  map (fun p => entry (fst p) (snd p)) (combine (seq 0 (length l)) l).
 
 (* ------------------------------------------------------------------ geometry used by the theorems *)
 Definition cross3 (a b : vec) : vec :=
